@@ -184,4 +184,25 @@ def cmdParseSpecial (a : List String) : String :=
         s!"{hexs r.path} {o r.query} {o r.hash} {if r.opq then 1 else 0}"
   | _ => "bad-op"
 
+/-- parse.base <hexinput> <scheme> <special> <user> <pass> <host|!> <port|-> <path> <query|!> <hash|!> <opq> [hints] :
+    the model of parse_url_impl<ada::url, true>(input, &base) on a base object with the given fields -/
+def cmdParseBase (a : List String) : String :=
+  match a with
+  | input :: scheme :: special :: user :: pass :: host :: port :: path :: query :: hash :: opq :: hintArgs =>
+    let idna := mkIdna (parseHints hintArgs)
+    let optB (s : String) : Option Bytes := if s == "!" then none else some (unhexs s)
+    let b : Model.UrlRec.Rec := Model.UrlRec.Rec.mk (unhexs scheme) (special == "1") (unhexs user) (unhexs pass) (optB host) (optNat port)
+      (unhexs path) (optB query) (optB hash) (opq == "1")
+    match Model.ParseSpecial.parseWithBase idna b (unhexs input) with
+    | .invalid => "invalid"
+    | .ok r =>
+      -- the base's own host may contain the probe pattern only by accident; a host taken over from the base is not probed
+      match (if r.host == b.host then none else findMarker idna (r.host.getD [])) with
+      | some d => s!"need-idna {hexs d}"
+      | none =>
+        let o (x : Option Bytes) : String := match x with | some b => hexs b | none => "!"
+        s!"{hexs r.scheme} {if r.special then 1 else 0} {hexs r.username} {hexs r.password} {o r.host} {showOpt r.port} " ++
+        s!"{hexs r.path} {o r.query} {o r.hash} {if r.opq then 1 else 0}"
+  | _ => "bad-op"
+
 end Driver
